@@ -98,6 +98,39 @@ func (h *NtfnsHandler) Start() error {
 		return err
 	}
 
+	// The block the follower is synced to may have left the node's chain while the wallet
+	// was down, or its replacement was announced to a process that died before handling it.
+	// The catch-up below looks at heights only; when the node's chain is not higher than
+	// that block it would do nothing and leave the wallet on the stale branch. Hand the
+	// node's block at the highest common height to the follower: it takes the
+	// reorganisation path and rolls the wallet back onto the node's chain.
+	if syncHeight > 0 {
+		at := syncHeight
+		if indexHeight < at {
+			at = indexHeight
+		}
+		sha, err := h.walletMgr.chainFetcher.FetchBlockShaByHeight(at)
+		if err != nil {
+			logging.CPrint(logging.ERROR, "FetchBlockShaByHeight error",
+				logging.LogFormat{"err": err, "height": at})
+			return err
+		}
+		if at < syncHeight || *sha != h.bestBlock.Hash {
+			blk, err := h.walletMgr.chainFetcher.FetchBlockByHeight(at)
+			if err != nil {
+				logging.CPrint(logging.ERROR, "NtfnsHandler.Start(): FetchBlockByHeight error",
+					logging.LogFormat{"height": at, "err": err})
+				return err
+			}
+			if err = h.processConnectedBlock(blk); err != nil {
+				logging.CPrint(logging.ERROR, "NtfnsHandler.Start(): processConnectedBlock error",
+					logging.LogFormat{"height": at, "err": err})
+				return err
+			}
+			syncHeight = at
+		}
+	}
+
 	curHeight := syncHeight + 1
 	if !hasReadyWallet && indexHeight > 2000 {
 		for ; curHeight < indexHeight-2000; curHeight++ {
